@@ -78,7 +78,9 @@ impl UndoOperation for UndoSetChar {
     }
 
     fn undo(&mut self, edit_state: &mut EditState) -> EngineResult<()> {
-        edit_state.buffer.layers[self.layer].set_char(self.pos, self.old);
+        // put the recorded cell back even where set_char would refuse it now: on an alpha locked layer
+        // a cell that the edit made invisible could otherwise never be restored
+        edit_state.buffer.layers[self.layer].restore_char(self.pos, self.old);
         Ok(())
     }
 
